@@ -15,8 +15,8 @@ COMMON_NOTE = ("Trusted base: Lean 4.33 kernel (axioms audited on every run to b
 
 # id -> (what the theorems establish, what is partial / assumed in addition)
 TEXT = {
-    'C01': ('Lean theorems at network level (two mirrored layers joined by two in-order links, Isotp/Net.lean): for EVERY schedule of sends, full and transmit-only passes, deliveries, clock ticks and recv calls, what each side received is a prefix of what the other sent (byte-identical, in order, at most once) and no error of any kind is reported as long as no timeout fires (C01net.safety, safety_timeouts, clean_exchange, conservation); on the canonical cooperative schedule every payload is delivered after exactly roundsFor rounds for every block size, STmin, mode and link size (C01live.transfer_completes); endpoint contracts: the sender emits exactly Spec.segment (C02), the receiver reassembles every Spec.WellFormed stream (C03); two real layers and the two-layer model run the same random schedules and must agree.',
-            'Progress for ARBITRARY fair schedules is proved per endpoint only (no wedged state, process terminates) and explored on schedules; the composed liveness theorem is for the canonical schedule.'),
+    'C01': ('Lean theorems at network level (two mirrored layers joined by two in-order links, Isotp/Net.lean): for EVERY schedule of sends, full and transmit-only passes, deliveries, clock ticks and recv calls, what each side received is a prefix of what the other sent (byte-identical, in order, at most once) and no error of any kind is reported as long as no timeout fires (C01net.safety, safety_timeouts, clean_exchange, conservation); on the canonical cooperative schedule every payload is delivered after exactly roundsFor rounds for every block size, STmin, mode and link size (C01live.transfer_completes), and so is ANY NUMBER of queued messages, also when send() calls are interleaved with the rounds, in sending order, with the exact round count (C01queue.queue_completes, interleaved_completes, not_before); endpoint contracts: the sender emits exactly Spec.segment (C02), the receiver reassembles every Spec.WellFormed stream (C03); two real layers and the two-layer model run the same random schedules and must agree.',
+            'Progress for ARBITRARY fair schedules is proved per endpoint only (no wedged state, process terminates) and explored on schedules; the composed liveness theorems are for the canonical cooperative schedule (one direction: C01live / C01queue; both directions at once: C10live).'),
     'C02': ("Lean theorems: the transmit FSM of the model produces, for every payload/configuration, exactly the frames of the reference "
             "Spec.segment (invariant TxProg over arbitrary interleavings), padding/DLC closed forms equal the code's on the whole finite domain "
             "(kernel-checked tables regenerated from /repo), send() refuses sizes >= 2^32.", ""),
@@ -35,8 +35,8 @@ TEXT = {
             "since the previous one; STmin byte decoding equals the code's on all 256 bytes (kernel-checked table); a transmitting process() pass never ends with Consecutive Frames held back under a zero separation time unless the rate limiter holds them (C08pass).", "Virtual clock."),
     'C09': ("Lean theorems: is_for_me of the model equals the documented reception condition for every address and frame; frames not for me "
             "change nothing; emitted id/prefix are the documented ones and are accepted by the mirrored address; Functional sends restricted to single frames.", ""),
-    'C10': ('The network-level theorems of C01 hold with both directions active at once (they are stated for arbitrary schedules of both layers), plus the mailbox discipline: when every pass that reads also transmits (full and transmit-only passes, the schedule space of the property) a received Flow Control is consumed by the next transmit pass before any other frame is read (C10.fc_never_lost, mailbox_inv_reachable), frame conditions between the directions, no wedged state in full duplex; exhaustive-interleaving correspondence of the two-layer model against two real layers.',
-            "Composed progress ('no interleaving reaches a stuck state') is proved per endpoint and explored exhaustively on short interleavings, not proved for the composed network."),
+    'C10': ('The network-level theorems of C01 hold with both directions active at once (they are stated for arbitrary schedules of both layers), plus the mailbox discipline: when every pass that reads also transmits (full and transmit-only passes, the schedule space of the property) a received Flow Control is consumed by the next transmit pass before any other frame is read (C10.fc_never_lost, mailbox_inv_reachable), frame conditions between the directions, no wedged state in full duplex; liveness with BOTH directions active at once on the canonical schedule: both payloads are delivered, both requests succeed, no error, for every block size / STmin / mode / link size when the four timeouts cover the exchange (C10live.duplex_completes_partial, progress_each_round: a potential strictly decreases every round), with the sharp timeouts (N_Cr 3 ticks, N_Bs 2 ticks) for BS 0 / STmin 0 and a 1600-configuration table; the one-directional timing hypotheses are proved NOT sufficient in duplex (a layer that sends and receives leaves process() after the pass that follows a Flow Control; frames behind it wait one more round); exhaustive-interleaving correspondence of the two-layer model against two real layers.',
+            "Composed progress is proved for the canonical schedule (C10live); 'no interleaving reaches a stuck state' for ARBITRARY interleavings is proved per endpoint and explored exhaustively on short interleavings; the sharp-timeout duplex statement for all parameters is kept as a stated conjecture (C10live_statement)."),
     'C11': ('Lean theorems: one dropped or duplicated frame anywhere in a multi-message exchange leaves deliveries = sent list minus at most the hit message (twice for a duplicated Single Frame), never truncated/merged/corrupted (c11_never_corrupt, contained_any_aborts, message_fate), the loss of a multi-frame message is reported (loss_detected), later messages are delivered normally (c11_rest_normal), also across timeouts (C11abort) and sequence-number wrap; ignored frames never move the N_Cr deadline (C07ign); plus exhaustive single-fault enumeration on real layers vs the model.',
             "Return to idle 'within the configured timeouts' is derived from the timer invariants per endpoint and checked on the virtual clock."),
     'C12': ("Lean theorems: request conservation (queued + active + completed is a permutation of accepted ids over every operation), hence "
